@@ -72,8 +72,9 @@ func vfhC11RangeSearch5() { vfRangeSearch(vfInt("n", 5, 5)) }
 
 func vfRangeSearch(n int) {
 	orig := make([]BulkItem, n)
+	base := vfInt("id-base", -3, 1) // record ids are arbitrary ints: negative ones too
 	for i := range orig {
-		orig[i] = BulkItem{Box: vfBoxL("b"), RecordID: i}
+		orig[i] = BulkItem{Box: vfBoxL("b"), RecordID: base + i}
 	}
 	q := vfBoxL("q")
 	items := make([]BulkItem, n)
@@ -101,6 +102,7 @@ func vfRangeSearch(n int) {
 	how := 0
 	err := t.RangeSearch(q, func(id int) error {
 		vfAssert(!stopped, "callback invoked again after it returned Stop or an error")
+		id -= base
 		vfAssert(id >= 0 && id < n, "record id is one of the loaded ids")
 		seen[id]++
 		how = vfInt("cb", 0, 3)
